@@ -45,6 +45,10 @@ var ParseFamilies = []Family{
 	{"typed-inline-fragment-operations", false, func(n int) string { return rep("{...on a{b}...c ...@d{e}}", n) + "{f}" }},
 	{"fragment-definition-flood", false, func(n int) string { return rep("fragment a on b{...c}", n) + "{d}" }},
 	{"list-item-flood", false, func(n int) string { return "{a(x:[" + rep("1 [2] {k:3} ", n) + "])}" }},
+	// a long string of multi-byte characters where no string may stand (the parser names the token it did not expect)
+	{"nonascii-string-unexpected", false, func(n int) string { return `"` + rep("é", n) + `" {a}` }},
+	{"nonascii-blockstring-unexpected", false, func(n int) string { return `{a} """` + rep("日", n) + `"""` }},
+	{"nonascii-string-after-fragment-name", false, func(n int) string { return `fragment a "` + rep("ж", n) + `" b{c}` }},
 	{"invalid-bytes", false, func(n int) string { return rep("\x00", n) }},
 	{"sdl-nest-type", true, func(n int) string { return "type A{f:" + rep("[", n) + "Int" + rep("]", n) + "}" }},
 	{"sdl-nest-default", true, func(n int) string { return "input A{f:Int=" + rep("[", n) + rep("]", n) + "}" }},
@@ -57,6 +61,8 @@ var ParseFamilies = []Family{
 	{"sdl-implements-flood", true, func(n int) string { return "type A implements " + rep("I&", n) + "I{f:Int}" }},
 	{"sdl-enum-flood", true, func(n int) string { return "enum E{" + rep("A ", n) + "}" }},
 	{"sdl-location-flood", true, func(n int) string { return "directive @d on " + rep("FIELD|", n) + "FIELD" }},
+	{"sdl-nonascii-description-extend", true, func(n int) string { return `"` + rep("é", n) + `" extend type A{f:Int}` }},
+	{"sdl-nonascii-two-descriptions", true, func(n int) string { return `"d" "` + rep("é", n) + `" scalar A` }},
 	{"sdl-unclosed-args", true, func(n int) string { return "type A{f" + rep("(a:Int=[", n) }},
 }
 
